@@ -313,11 +313,33 @@ pub fn unsorted_state(rows: usize, cols: usize, mode: Mode) -> SpState {
     }
     SpState { s: Sparse::from_triplets(rows, cols, &mut t), rows, cols, m, mode }
 }
+/// the same kind of state handed over as raw compressed-column arrays (from_vecs accepts any row order inside a column, whatever
+/// from_triplets does with its input): a later insert / overwrite must cope with it
+pub fn unsorted_vecs_state(rows: usize, cols: usize, mode: Mode) -> SpState {
+    let mut m = SM::new();
+    let (mut val, mut ri, mut cs) = (vec![], vec![], vec![0usize; cols + 1]);
+    for j in 0..cols {
+        for i in (0..rows).rev() {
+            if (i + 2 * j) % 3 != 1 {
+                let v = r((i * cols + j) as i64 + 2);
+                val.push(v);
+                ri.push(i);
+                m.insert((i, j), v);
+                cs[j + 1] += 1;
+            }
+        }
+    }
+    for j in 0..cols {
+        cs[j + 1] += cs[j];
+    }
+    SpState { s: Sparse::from_vecs(rows, cols, val, ri, cs), rows, cols, m, mode }
+}
 pub fn run_bfs(ctx: &Ctx, name: &str, shapes: &[(usize, usize)], mode: Mode, depth: usize, cap: u64, cross: bool) {
     let mut inits: Vec<SpState> = shapes.iter().map(|&(r, c)| empty_state(r, c, mode)).collect();
     // start from non-initial states too: storage orders that inserts alone never produce
     inits.push(unsorted_state(3, 2, mode));
     inits.push(unsorted_state(2, 3, mode));
+    inits.push(unsorted_vecs_state(3, 3, mode));
     explore(ctx, name, inits.clone(), BfsOpts { max_depth: depth, state_cap: cap });
     if cross {
         crosscheck_stateright(ctx, name, inits.clone(), depth);
